@@ -281,12 +281,12 @@ class SpecMixin:
                     ws = kw.value.elts if isinstance(kw.value, (ast.List, ast.Tuple)) else [kw.value]
                     for w in ws:
                         try:
-                            wv = ops.to_int(self.sp(w, se))
+                            wvs = [ops.to_int(self.sp(x, se)) for x in (w.elts if isinstance(w, ast.Tuple) else [w])]
                         except KeyError:
                             continue     # witness names a local of the callee: only a hint, unavailable at call sites
-                        if wv is None:
+                        if any(x is None for x in wvs) or len(wvs) != len(ks):
                             continue
-                        inst = z3.substitute(z3.And(rng + [body]), (ks[0], wv))
+                        inst = z3.substitute(z3.And(rng + [body]), *list(zip(ks, wvs)))
                         wit.append(inst)
             return VBool(z3.Or([ex] + wit) if wit else ex)
         if f == "final":
